@@ -260,7 +260,7 @@ def sec_flavour_symmetry_tagged(rep):
 
     rep.under_contract(cf.Combiner.collect, cf.Combiner.heavylight_components)
     sy = H.Sy()
-    pre = [sy.x > 0, sy.x < 1, sy.Q2 > 0] + sy.mass_pre()
+    pre = [sy.x > 0, sy.x <= 1, sy.Q2 > 0] + sy.mass_pre()
     flav_q = {"charm": 4, "bottom": 5, "top": 6}
     for process in ("EM", "NC"):
         for kind in ("F2", "FL", "F3", "g1"):
